@@ -91,6 +91,8 @@ def strategy(tier):
         chain = src == "generated" and c["model"].get("family") == "chain"
         c["grid_kind"] = draw(st.sampled_from((["forward"] * 3 + ["backward"] * 3 if chain else ["forward"] * 6) + ["from-t0", "repeat"]))
         c["repeat_at"] = draw(st.integers(0, 11))
+        if c["grid_type"].startswith("int") and src != "generated" and CATALOGUE[c["name"]][2] < 2.0:
+            c["grid_type"] = "list"          # Lorenz / Robertson are only benign on horizons far below one time unit
         if c["grid_type"].startswith("int"):
             # whole-number output times (np.arange / day numbers) with a possibly fractional initial time
             tmax = 6.0 if src == "generated" else CATALOGUE[c["name"]][2]
@@ -156,6 +158,10 @@ def _run(case, rec, part, model, f, tag=""):
         # IntegrationError - a rejected request, not a wrong answer; only the odeint path accepts such grids
         kind = "forward"
     uniq = times
+    if kind == "backward" and abs(t0) > 100:
+        # scipy's odeint itself reports "Illegal input detected (internal error)" for decreasing times at |t| ~ 2000 when asked
+        # for full output (reproduced without PyGOM), and may then return garbage rows
+        kind = "forward"
     if kind == "backward" and not (case["source"] == "generated" and case["model"].get("family") == "chain"):
         # run backwards, non-linear models blow up in finite time; linear chains merely grow
         kind = "forward"
